@@ -111,6 +111,23 @@ var (
 	httpCompressions = []string{"", "gzip", "zlib", "deflate", "snappy", "zstd", "lz4"}
 )
 
+// levelsOf: compression_params.level values the HTTP client configuration
+// accepts for the algorithm (configcompression.Type.ValidateParams: gzip / zlib
+// / deflate take -2 (Huffman only), -1, 0..9; zstd takes any level and maps it
+// to the nearest encoder level; snappy and lz4 take none).  0 = not set.
+func levelsOf(transport, compression string) []int {
+	if transport == trGRPC {
+		return []int{0}
+	}
+	switch compression {
+	case "gzip", "zlib", "deflate":
+		return []int{0, 0, -2, 1, 5, 9}
+	case "zstd":
+		return []int{0, 0, 1, 3, 6, 11}
+	}
+	return []int{0}
+}
+
 const (
 	trGRPC      = "grpc"
 	trHTTPProto = "http-proto"
